@@ -7,3 +7,8 @@ import Properties.C05
 #print axioms Hive.C05.run_station
 #print axioms Hive.C05.fleet_totals
 #print axioms Hive.C05.concrete_gain
+#print axioms Hive.C05.run_station_typed
+#print axioms Hive.C05.run_vehicle_typed
+#print axioms Hive.C05.fleet_by_type
+#print axioms Hive.C05.types_init
+#print axioms Hive.C05.concrete_types
